@@ -288,6 +288,10 @@ def run_chunk(common, ch, maxlen):
     if p.returncode != 0:
         R["error"] = "dump failed: " + p.stdout[-2000:]
         return R
+    vis = vlib.visible_internal_helpers(p.stdout)
+    if vis:
+        R["error"] = "an implementation helper of namespace internal is visible to the control and would get a tree node (enable_control is true): " + vis[0][:300]
+        return R
     if "unknown" in p.stdout:
         bad = [l for l in p.stdout.split("\n") if "unknown" in l][:3]
         R["error"] = "untranslatable rule in table dump: " + " ;; ".join(bad)
